@@ -13,7 +13,7 @@ cd "$WT" || exit 2
 RL4CO_SRC="$WT" PYTHONPATH="$WT" timeout 900 /venv/bin/python "$SRC/demo$K.py" > /tmp/coord/demo_${P}_${K}_clean.out 2>&1; RC_CLEAN=$?
 git apply "$SRC/patch$K.diff" || { echo "PATCH FAILED"; git -C /repo worktree remove --force "$WT"; exit 3; }
 RL4CO_SRC="$WT" PYTHONPATH="$WT" timeout 900 /venv/bin/python "$SRC/demo$K.py" > /tmp/coord/demo_${P}_${K}_mut.out 2>&1; RC_MUT=$?
-OMP_NUM_THREADS=4 MKL_NUM_THREADS=4 PYTHONPATH="$WT" timeout 6000 /venv/bin/python -m pytest -q -p no:cacheprovider --timeout=900 --continue-on-collection-errors --junitxml=/tmp/coord/junit_${P}_$K.xml > /tmp/coord/pytest_${P}_$K.out 2>&1
+OMP_NUM_THREADS=4 MKL_NUM_THREADS=4 PYTHONPATH="$WT" timeout 6000 /venv/bin/python -m pytest -q -p no:cacheprovider --timeout=3600 --continue-on-collection-errors --junitxml=/tmp/coord/junit_${P}_$K.xml > /tmp/coord/pytest_${P}_$K.out 2>&1
 NPASS=$(python3 - <<EOF
 import json, xml.etree.ElementTree as ET
 stable = set(json.load(open('/root/.vp/BASELINE.json'))['stable_pass'])
